@@ -54,6 +54,24 @@ func historyInputs(seed int64, n int) []string {
 			out = append(out, s)
 		}
 	}
+	return append(out, historyLongInputs()...)
+}
+
+// historyLongInputs: a few inputs past the sizes at which an implementation might switch to another code path
+// (a parallel scan, a cache, a pooled buffer): few tokens each, so that the model stays linear on them.
+func historyLongInputs() []string {
+	var out []string
+	for _, n := range []int{5000, 40000, 70000} {
+		pad := strings.Repeat("a", n)
+		out = append(out,
+			"<script>alert(1)</script>"+pad,
+			pad+"<script>alert(1)</script>",
+			"<a href=\"javascript:alert(1)\">"+pad,
+			"1 OR 1=1 /*"+pad+"*/",
+			"'"+pad+"' OR 1=1--",
+			pad+" UNION SELECT 1,2,3--",
+			pad)
+	}
 	return out
 }
 
@@ -73,6 +91,7 @@ func cmdHistory(args []string) {
 	fs.Parse(args)
 	rep := newReport("C05", "reference pass (every input once, sequentially, in a fresh process; also compared with the model's fresh-state answer), then random call histories (repeats, permutations, interleaved SQLi/XSS calls) and concurrent goroutines over shared inputs with scheduling pressure; every answer must equal the reference; non-trivial = the input is reported by at least one detector")
 	inputs := historyInputs(seed, n)
+	nLong := len(historyLongInputs())
 	ref := make([]answer, len(inputs))
 	if coldFirst {
 		// cold start: many goroutines ask the same inputs at once before anything ran sequentially
@@ -132,6 +151,8 @@ func cmdHistory(args []string) {
 		for k := range idx {
 			if k > 0 && rng.Intn(4) == 0 {
 				idx[k] = idx[rng.Intn(k)] // repeat an earlier call
+			} else if rng.Intn(12) == 0 {
+				idx[k] = len(inputs) - 1 - rng.Intn(nLong) // one of the long inputs
 			} else {
 				idx[k] = rng.Intn(len(inputs))
 			}
@@ -169,6 +190,8 @@ func cmdHistory(args []string) {
 				i := r.Intn(len(inputs))
 				if k%3 == 0 {
 					i = (hot + k%5) % len(inputs)
+				} else if k%11 == 0 {
+					i = len(inputs) - 1 - r.Intn(nLong)
 				}
 				a := ask(inputs[i])
 				if k%7 == 0 {
